@@ -635,6 +635,10 @@ class ManagerSystem:
     def enabled_ops(self, hist, ms):
         return enabled(ms, self.universe, self.allow_cycles)
 
+    def state_extra(self, hist, opi):
+        """whatever else of the HISTORY decides which operations are enabled next (so that it is part of the state identity)"""
+        return None
+
     def transition_checks(self, w, ms, op, ns, ex, hist):
         """extra oracles on the executed transition; return list of issues"""
         return []
@@ -681,7 +685,7 @@ class ManagerSystem:
                 continue
             try:
                 # digest first: an oracle's own queries must not leak into the identity of the explored state
-                dg = canon(w)
+                dg = canon(w, self.state_extra(hist, opi))
                 issues.extend(self.transition_checks(w, ms, op, ns, ex, hist))
                 if dg not in self._checked:
                     if len(self._checked) > 2000000:
